@@ -28,11 +28,20 @@ const (
 
 // netProfile draws the per-run network parameters.
 func netProfile(w *simrt.Choices) simnet.Profile {
-	return simnet.Profile{
+	p := simnet.Profile{
 		SegMode:  w.Choose(3),
 		MaxDelay: []time.Duration{0, 0, 3 * time.Millisecond, 2 * time.Second}[w.Choose(4)],
 		BufCap:   []int{0, 0, 64, 1024, 65536}[w.Choose(5)],
 	}
+	// Keep the transmission time of any single line or reply well below the
+	// idle timeouts: with second-scale delays a small buffer would turn one
+	// long line into minutes of simulated time, and Inbucket's deadlines are
+	// per line, not per byte (a slower-than-timeout transfer is outside every
+	// property here; see DESIGN "observations").
+	if p.MaxDelay > 100*time.Millisecond && p.BufCap != 0 && p.BufCap < 65536 {
+		p.BufCap = 0
+	}
+	return p
 }
 
 func profileString(p simnet.Profile) string {
